@@ -68,6 +68,7 @@ var decTracked = []struct {
 		"Configuration.deleteHooksByPolicy", "hookHasDeletePolicy", "Configuration.outputLogsByPolicy"}},
 	{"pkg/action/action.go", []string{"Configuration.releaseContent"}},
 	{"pkg/action/resource_policy.go", []string{"filterManifestsToKeep"}},
+	{"pkg/action/validate.go", []string{"requireValue"}},
 	{"pkg/storage/storage.go", []string{"Storage.Create", "Storage.Deployed", "Storage.DeployedAll",
 		"Storage.removeLeastRecent", "Storage.Last"}},
 	{"pkg/release/v1/status.go", []string{"Status.IsPending"}},
